@@ -37,6 +37,7 @@ type c19Conn struct {
 	handed  []byte // everything Read has returned so far
 	written []byte
 	closed  bool
+	partial bool // a chunk may be larger than the reader's buffer
 	// a peer that does not read yet: Write blocks until gate is closed
 	gate chan struct{}
 	// notify is closed as soon as notifyAt bytes have been written
@@ -58,7 +59,12 @@ func (c *c19Conn) Read(p []byte) (int, error) {
 		return 0, io.EOF
 	}
 	n := copy(p, c.chunks[c.next])
-	c.next++
+	if c.partial && n < len(c.chunks[c.next]) {
+		// a chunk larger than the caller's buffer: the rest stays for the next read
+		c.chunks[c.next] = c.chunks[c.next][n:]
+	} else {
+		c.next++
+	}
 	c.handed = append(c.handed, p[:n]...)
 	return n, nil
 }
@@ -134,7 +140,23 @@ func VerifC19_Relay() {
 	reportFeed = reportfeed.New(rtcmLog, recentMessages)
 
 	var client, server *c19Conn
-	if mode == 0 && verifParam("frames", 0, 1) == 1 {
+	if mode == 0 && verifParam("full-buffers", 0, 1) == 1 {
+		// both peers send more than the relay's 2048-byte buffer takes in
+		// one read: 2049 and 4097 bytes offered at once (first and last byte
+		// symbolic, the rest fixed text), so reads fill the buffer to the
+		// last byte and leave a remainder (lazy schedule)
+		big := func(name string, n int) []byte {
+			b := make([]byte, n)
+			for i := range b {
+				b[i] = byte('A' + i%23)
+			}
+			e := verifBytes(name, 2)
+			b[0], b[n-1] = e[0], e[1]
+			return b
+		}
+		client = &c19Conn{chunks: [][]byte{big("cb", 2049)}, partial: true}
+		server = &c19Conn{chunks: [][]byte{big("sb", 4097)}, partial: true}
+	} else if mode == 0 && verifParam("frames", 0, 1) == 1 {
 		// the client sends complete CRC-valid frames: one whose 12-bit type is
 		// symbolic (every type 0..4095), a second frame, one more byte; the
 		// parser and the queue must keep up with all of them (lazy schedule)
@@ -158,6 +180,10 @@ func VerifC19_Relay() {
 			client.gate = server.notify
 		}
 	}
+	var c19All []byte
+	for _, c := range client.chunks {
+		c19All = append(c19All, c...)
+	}
 	verifWitness("reached")
 	handleMessages(server, client, false, 1)
 	verifWitness("returned")
@@ -165,10 +191,7 @@ func VerifC19_Relay() {
 
 	fromClient, toClient := client.snapshot()
 	fromServer, toServer := server.snapshot()
-	var allClient []byte
-	for _, c := range client.chunks {
-		allClient = append(allClient, c...)
-	}
+	allClient := c19All
 	verifAssert("client-stream-read-to-the-end", verifBytesEq(fromClient, allClient))
 	verifAssert("server-received-exactly-the-client-bytes", verifBytesEq(toServer, fromClient))
 	// The session ends when the client disconnects: what the relay had read
